@@ -20,10 +20,20 @@ RULE = ("Integers sweep every width boundary (0xfc/0xfd/0xffff/0x10000/0xfffffff
         "started in the middle of a stream; item counts 0/1/2/0xfc/0xfd/0xfe/0x100/0xffff/0x10000 of headers, cfheaders, "
         "cfcheckpt, getdata, var-strings; a non-zero transaction count after the first/middle/last header; compact targets "
         "on both sides of negative / 2^256; header lists whose proof of work holds with intact and broken links. Cases are "
-        "laid out by reference encoders of this module, never by the library's own.")
+        "laid out by reference encoders of this module, never by the library's own. After the audit of entry points: "
+        "wait_for with every ordered pair of classes (the second one arrives); ONE node answering several wait_for calls "
+        "with damaged envelopes in between (failure, then retry), also with logging on; SimpleNode built through its "
+        "constructor (socket module replaced: default network, default port per network, explicit port); get_filtered_txs / "
+        "is_tx_accepted against merkleblock + tx envelopes laid out here (blocks with different hashes, right and wrong "
+        "order); Block.parse with 0..3 whole transactions and a second block afterwards; HeadersMessage / CFHeadersMessage / "
+        "CFCheckPointMessage through their constructors; falsy arguments (0, b\"\", False) of every message; headers and "
+        "header hex text of one character class (all zero, all ff, digits only, letters only, upper / mixed case); cfilter "
+        "bodies whose count disagrees with the bits that follow.")
 TRUSTED = ["hashlib (sha256) — hash256 is a universally quantified function in the theorems",
            "modelled, not verified: object plumbing of the message classes; real socket I/O is out of scope — SimpleNode "
-           "runs on a BytesIO stream and a recording socket, time.time / randint are substituted from the harness",
+           "runs on a BytesIO stream and a recording socket (its constructor: with the socket module replaced), time.time / "
+           "randint / sleep are substituted from the harness; Tx.parse and MerkleBlock (other properties) are used as they "
+           "are by the get_filtered_txs / is_tx_accepted / Block.parse cases",
            "coq/Spec/P2P.v (protocol transcription) — compared on every run with independent struct-based reference "
            "decoders and with a version message recorded on mainnet"]
 ASSUMPTIONS = ["hash256 has 32-byte output (hypothesis of the envelope theorems)",
@@ -1304,6 +1314,356 @@ def p_handshake(net, now, rnd, peer, rest):
     return None
 
 
+# ---------------------------------------------------------------- audit (round 3 blind spots): alternative entry points,
+# falsy / default arguments, several wanted classes, one node used for many calls (failure, then retry), coinciding fields
+
+REF_PORT = [8333, 18333, 38333, 18444]        # default P2P ports of mainnet / testnet3 / signet / regtest (chainparams)
+
+
+def _ref_gcs_decode(fb):
+    """BIP158 Golomb-Rice decoder (P = 19) of a well-formed filter: the N values"""
+    n, body = _ref_read_cs(fb)
+    bits = [(byte >> (7 - k)) & 1 for byte in body for k in range(8)]
+    pos, cur, out = 0, 0, []
+    for _ in range(n):
+        q = 0
+        while bits[pos]:
+            q, pos = q + 1, pos + 1
+        pos += 1
+        rem = 0
+        for _ in range(GCS_P):
+            rem, pos = (rem << 1) | bits[pos], pos + 1
+        cur += (q << GCS_P) + rem
+        out.append(cur)
+    return out
+
+
+def _ref_decode_msg(cmd, pl):
+    """the value _msgval gives for a WELL-FORMED payload of this command, decoded here from the protocol layout"""
+    if cmd == b"verack":
+        return [0]
+    if cmd in (b"ping", b"pong"):
+        return [1 if cmd == b"ping" else 2, _take(pl, 8)[0]]
+    if cmd == b"headers":
+        n, s = _ref_read_cs(pl)
+        out = []
+        for _ in range(n):
+            h, s = _take(s, 80)
+            z, s = _take(s, 1)
+            if z != b"\x00":
+                raise ValueError("transaction count")
+            out.append([_le(h[:4]), h[4:36][::-1], h[36:68][::-1], _le(h[68:72]), h[72:76], h[76:80]])
+        return [3, out]
+    t, s = _take(pl, 1)
+    stop, s = _take(s, 32)
+    if cmd == b"cfilter":
+        n, s = _ref_read_cs(s)
+        fb, s = _take(s, n)
+        return [4, t[0], stop[::-1], fb, sorted(set(_ref_gcs_decode(fb)))]
+    if cmd == b"cfheaders":
+        prev, s = _take(s, 32)
+        n, s = _ref_read_cs(s)
+        hs = [_take(s[32 * i:], 32)[0] for i in range(n)]
+        cur = prev
+        for fh in hs:
+            cur = _h256(fh + cur)
+        return [5, t[0], stop[::-1], prev, hs, cur]
+    if cmd == b"cfcheckpt":
+        n, s = _ref_read_cs(s)
+        return [6, t[0], stop[::-1], [_take(s[32 * i:], 32)[0] for i in range(n)]]
+    raise ValueError(cmd)
+
+
+def _quiet(f):
+    """runs f with sys.stdout replaced; returns (result-or-ERR, what was printed)"""
+    import contextlib
+    import io
+    buf = io.StringIO()
+    with contextlib.redirect_stdout(buf):
+        got = _tryE(f)
+    return got, buf.getvalue()
+
+
+def p_node_session(net, envs, calls, rest, logging):
+    """ONE SimpleNode answering several wait_for calls (each for one or more classes, in any order) over a stream laid
+    out here; envelopes whose checksum is damaged make the call raise, the next call carries on behind them. Compared with
+    a simulation written from the protocol: which envelope ends each call, the message it carries, every verack / pong
+    sent so far, the stream position at the end. logging=1: the same with the node's logging switched on."""
+    magic = REF_MAGIC[net]
+    raws = []
+    for c, pl, dmg in envs:
+        raw = _lay_env((c, pl, magic))
+        if dmg:
+            raw = raw[:20] + bytes([raw[20] ^ dmg]) + raw[21:]
+        raws.append(raw)
+    n = _node(net, b"".join(raws) + rest)
+    n.logging = bool(logging)
+    k, sent = 0, []
+    for ci, wanted in enumerate(calls):
+        want, ended = ERR, False
+        while True:
+            if k >= len(envs):
+                ended = True
+                break
+            c, pl, dmg = envs[k]
+            k += 1
+            if dmg:
+                break
+            if c == b"version":
+                sent.append(_lay_env((b"verack", b"", magic)))
+            elif c == b"ping":
+                sent.append(_lay_env((b"pong", pl, magic)))
+            if c in wanted:
+                want = _tryE(_ref_decode_msg, c, pl)
+                break
+        got, out = _quiet(lambda: _msgval(n.wait_for(*[CLASSES[w] for w in wanted])))
+        where = f"call {ci} (wait_for {[w.decode() for w in wanted]}) on one node, logging={'on' if logging else 'off'}"
+        if (got is ERR) != (want is ERR):
+            return f"{where}: {'raised' if got is ERR else 'returned'}, the protocol simulation {'raises' if want is ERR else 'returns a message'}"
+        if got is not ERR and got != want:
+            return f"{where}: returned {got!r:.120}, the stream carries {want!r:.120}"
+        if n.socket.sent != sent:
+            return f"{where}: {len(n.socket.sent)} envelope(s) sent so far, expected {len(sent)} (verack per version, pong per ping)"
+        if not logging and out:
+            return f"{where}: printed although logging is off"
+        if ended:
+            return None
+    if n.stream.read() != b"".join(raws[k:]) + rest:
+        return "after the last call the stream is not right behind the last envelope read"
+    return None
+
+
+class _ConnSock(_FakeSock):
+    def __init__(self, log, stream, fam, typ):
+        _FakeSock.__init__(self)
+        self.log, self.stream_bytes = log, stream
+        log.append(["socket", fam, typ])
+
+    def connect(self, addr):
+        self.log.append(["connect", addr[0], addr[1]])
+
+    def makefile(self, *a, **kw):
+        self.log.append(["makefile"])
+        return BytesIO(self.stream_bytes)
+
+
+def p_node_ctor(net, how, host, port, cmd, payload, nonce):
+    """SimpleNode(...) through its CONSTRUCTOR (socket module replaced): connects once to (host, port or the network's
+    default port), and the node then frames what it sends / accepts what it reads with the magic of the network given
+    (mainnet when none is given), without printing.  how: 0 SimpleNode(host); 1 (host, network=); 2 (host, port,
+    network) positional; 3 (host, port=, network=, logging=False)"""
+    import socket as real
+    log = []
+    if how == 0:
+        net = 0
+    magic = REF_MAGIC[net]
+    stream = _lay_env((b"ping", nonce, magic)) + b"xy"
+
+    class _Mod:
+        AF_INET, SOCK_STREAM = real.AF_INET, real.SOCK_STREAM
+
+        @staticmethod
+        def socket(fam=-1, typ=-1, *a):
+            return _ConnSock(log, stream, fam, typ)
+    old = network.socket
+    network.socket = _Mod
+    try:
+        host = host.decode("ascii")
+        n = [lambda: network.SimpleNode(host), lambda: network.SimpleNode(host, network=NETS[net]),
+             lambda: network.SimpleNode(host, port, NETS[net]),
+             lambda: network.SimpleNode(host, port=port, network=NETS[net], logging=False)][how]()
+    finally:
+        network.socket = old
+    wport = port if how >= 2 else REF_PORT[net]
+    if [x for x in log if x[0] == "connect"] != [["connect", host, wport]]:
+        return f"SimpleNode (form {how}, {NETS[net]}) connected to {[x[1:] for x in log if x[0] == 'connect']!r}, expected {(host, wport)!r}"
+    if log[0] != ["socket", real.AF_INET, real.SOCK_STREAM]:
+        return "SimpleNode did not open an IPv4 stream socket"
+
+    def go():
+        n.send(network.GenericMessage(cmd, payload))
+        m = n.wait_for(network.PingMessage)
+        return [list(n.socket.sent), m.nonce, n.stream.read()]
+    got, out = _quiet(go)
+    want = [[_lay_env((cmd, payload, magic)), _lay_env((b"pong", nonce, magic))], nonce, b"xy"]
+    if got is ERR or got != want:
+        return (f"a node constructed as form {how} for {NETS[net]} does not frame / accept envelopes of that network "
+                f"(sent or read differ from the layout with magic {magic.hex()})")
+    if out:
+        return "a node constructed without logging prints"
+    return None
+
+
+def _lay_merkleblock(hdr, total, hashes, flags):
+    return hdr + struct.pack("<I", total) + _ref_varint(len(hashes)) + b"".join(hashes) + _ref_varint(len(flags)) + flags
+
+
+def _lay_hdr_for(root, seed):
+    """an 80-byte header committing to this merkle root (internal byte order)"""
+    x = hashlib.sha256(seed).digest()
+    return x[:4] + hashlib.sha256(x).digest() + root + x[4:8] + b"\xff\xff\x7f\x20" + x[8:12]
+
+
+class _TxStub:
+    def __init__(self, h):
+        self.h = h
+
+    def hash(self):
+        return self.h
+
+    def id(self):
+        return self.h.hex()
+
+
+def p_node_requests(net, blocks, noise, swap, rest):
+    """the request helpers of SimpleNode (get_filtered_txs, is_tx_accepted) — other routes to getdata + envelope +
+    wait_for. blocks: per block [seed, raw transactions (1 or 2), how many of them match the filter]; the peer answers
+    each with merkleblock + the matched transactions (a ping in front when noise), all laid out here. Expected: ONE
+    getdata envelope listing (3, hash of block i) for every i in order, a pong per ping, the matched transactions in
+    order. swap=1: the peer answers with the blocks in reverse order -> must raise when the hashes differ."""
+    magic = REF_MAGIC[net]
+    infos = []
+    for seed, raws, nmatch in blocks:
+        hs = [_h256(x) for x in raws]
+        root = hs[0] if len(hs) == 1 else _h256(hs[0] + hs[1])
+        hdr = _lay_hdr_for(root, seed)
+        flags = b"\x01" if len(hs) == 1 else (b"\x07" if nmatch == 2 else b"\x03")
+        infos.append((_h256(hdr)[::-1], _lay_merkleblock(hdr, len(hs), hs, flags), list(raws[:nmatch])))
+    order = infos[::-1] if swap else infos
+    stream, pongs = b"", []
+    for bh, mb, matched in order:
+        if noise:
+            stream += _lay_env((b"ping", bh[:8], magic))
+            pongs.append(_lay_env((b"pong", bh[:8], magic)))
+        stream += _lay_env((b"merkleblock", mb, magic))
+        for x in matched:
+            stream += _lay_env((b"tx", x, magic))
+    hashes = [i[0] for i in infos]
+    n = _node(net, stream + rest)
+    got, _ = _quiet(lambda: [[t.hash(), t.id()] for t in n.get_filtered_txs(list(hashes))])
+    getdata = _lay_env((b"getdata", _lay_getdata([(3, h) for h in hashes]), magic))
+    if not n.socket.sent or n.socket.sent[0] != getdata:
+        return (f"get_filtered_txs for {len(hashes)} block(s) did not first send one getdata envelope listing "
+                f"(3 = filtered block, hash) for every block in order")
+    bad_order = swap and hashes != hashes[::-1]
+    if bad_order:
+        return None if got is ERR else "get_filtered_txs accepted merkle blocks that answer other hashes than asked, in order"
+    want = [[_h256(x)[::-1], _h256(x)[::-1].hex()] for _, _, matched in infos for x in matched]
+    if got is ERR or got != want:
+        return f"get_filtered_txs returned {'an exception' if got is ERR else len(got)} — expected the {len(want)} matched transaction(s) in order"
+    if n.socket.sent[1:] != pongs or n.stream.read() != rest:
+        return "get_filtered_txs: pongs sent / stream position differ from the simulation"
+    # is_tx_accepted: getdata (1, txid); True when that transaction comes back, not true for another one
+    allraw = [x for _, raws, _ in blocks for x in raws]
+    slept = []
+    old = network.sleep
+    network.sleep = lambda t: slept.append(t)
+    try:
+        for i, x in enumerate(allraw[:2]):
+            other = allraw[(i + 1) % len(allraw)]
+            for back, expect in ((x, True), (other, other == x)):
+                n = _node(net, _lay_env((b"tx", back, magic)) + rest)
+                got, _ = _quiet(lambda: bool(n.is_tx_accepted(_TxStub(_h256(x)[::-1]))))
+                if n.socket.sent != [_lay_env((b"getdata", _lay_getdata([(1, _h256(x)[::-1])]), magic))]:
+                    return "is_tx_accepted did not send one getdata envelope for (1 = tx, txid)"
+                if got is ERR or got != expect or n.stream.read() != rest:
+                    return f"is_tx_accepted gives {got!r} when {'the' if expect else 'another'} transaction comes back"
+    finally:
+        network.sleep = old
+    return None
+
+
+def p_block_parse(hdr, raws, rest, hdr2):
+    """Block.parse (header + transaction count + whole transactions, laid out here) — the other route to the header
+    codec: same header fields as parse_header, serialize() gives the 80 bytes back, one hash per transaction, the stream
+    is left behind the last transaction; a second block parsed afterwards leaves the first untouched; Block(...) built
+    from the six header fields has no transactions"""
+    def fields(h):
+        return [_le(h[:4]), h[4:36][::-1], h[36:68][::-1], _le(h[68:72]), h[72:76], h[76:80]]
+    st = BytesIO(hdr + _ref_varint(len(raws)) + b"".join(raws) + rest)
+    b = block.Block.parse(st)
+    hashes = [_h256(x)[::-1] for x in raws]
+
+    def bad(b, h, hashes):
+        if _hdr(b) != fields(h) or b.serialize() != h or b.hash() != _h256(h)[::-1]:
+            return "header fields / serialize() / hash() differ from the 80 header bytes"
+        if b.tx_hashes != hashes or b.txs is None or [t.hash() for t in b.txs] != hashes:
+            return f"{len(hashes)} transaction(s) follow the header, the block holds {b.tx_hashes if b.tx_hashes is None else len(b.tx_hashes)} hash(es) / other hashes"
+        return None
+    e = bad(b, hdr, hashes)
+    if e:
+        return "Block.parse: " + e
+    if st.read() != rest:
+        return "Block.parse leaves the stream at the wrong place"
+    b2 = block.Block.parse(BytesIO(hdr2 + _ref_varint(len(raws[:1])) + b"".join(raws[:1])))
+    e = bad(b2, hdr2, hashes[:1]) or bad(b, hdr, hashes)
+    if e:
+        return "Block.parse, after another block was parsed: " + e
+    h1, h3 = block.Block.parse_header(BytesIO(hdr)), block.Block(*fields(hdr2))
+    if _hdr(block.Block.parse_header(BytesIO(hdr), hex="")) != fields(hdr) or _hdr(block.Block.parse_header(BytesIO(hdr), None)) != fields(hdr):
+        return "parse_header(stream, hex='' / None) does not read the stream"
+    if h1.txs is not None or h1.tx_hashes is not None or h3.txs is not None or h3.tx_hashes is not None or \
+            h1.serialize() != hdr or h3.serialize() != hdr2:
+        return "a header-only Block (parse_header / six-argument constructor) carries transactions or another header"
+    return None
+
+
+def p_header_hex(text):
+    """Block.parse_header(hex=text) for a text of 160 hexadecimal digits (any case, digits only, letters only): the
+    fields are those of the 80 bytes the text spells, decoded here digit by digit"""
+    t = text.decode("ascii")
+    digits = "0123456789abcdef"
+    raw = bytes(16 * digits.index(t[i].lower()) + digits.index(t[i + 1].lower()) for i in range(0, len(t), 2))
+    want = [_le(raw[:4]), raw[4:36][::-1], raw[36:68][::-1], _le(raw[68:72]), raw[72:76], raw[76:80]]
+    got = _tryE(lambda: block.Block.parse_header(hex=t))
+    if got is ERR:
+        return f"parse_header(hex=...) raised on a well-formed header text ({'digits only' if t.isdigit() else 'upper case' if t.isupper() else 'hex'})"
+    if _hdr(got) != want or got.serialize() != raw:
+        return "parse_header(hex=...) gives other fields than the bytes the text spells"
+    return None
+
+
+def p_direct_ctor(hdrs, t, stop, prev, hashes):
+    """message objects built through their CONSTRUCTORS (not parse): HeadersMessage(list of Block).is_valid(),
+    CFHeadersMessage(...).last_header, CFCheckPointMessage(...) are what the parsed ones are"""
+    fs = [[_le(h[:4]), h[4:36][::-1], h[36:68][::-1], _le(h[68:72]), h[72:76], h[76:80]] for h in hdrs]
+    m = network.HeadersMessage([block.Block(*f) for f in fs])
+    pm = network.HeadersMessage.parse(BytesIO(_ref_varint(len(hdrs)) + b"".join(h + b"\x00" for h in hdrs)))
+
+    def ref():
+        last = None
+        for h in hdrs:
+            try:
+                target = _ref_target(h[72:76])
+            except ValueError:
+                return False
+            if _le(_h256(h)) > target or (last and h[4:36][::-1] != last):
+                return False
+            last = _h256(h)[::-1]
+        return True
+    want = ref()
+    for how, x in (("constructed", m), ("parsed", pm)):
+        if [y.serialize() for y in x.headers] != list(hdrs):
+            return f"{how} headers message holds other headers"
+        for _ in range(2):
+            if x.is_valid() is not want:
+                return f"{how} headers message of {len(hdrs)}: is_valid() is {x.is_valid()!r}, proof of work and links say {want}"
+    cur = prev
+    for fh in hashes:
+        cur = _h256(fh + cur)
+    for hs in (list(hashes), tuple(hashes)):
+        c = compactfilter.CFHeadersMessage(t, stop, prev, hs)
+        if (c.filter_type, c.stop_hash, c.previous_filter_header, list(c.filter_hashes), c.last_header) != \
+                (t, stop, prev, list(hashes), cur):
+            return "CFHeadersMessage built through its constructor: fields / last_header differ from the filter-header chain"
+    k = compactfilter.CFCheckPointMessage(t, stop, list(hashes))
+    pk = compactfilter.CFCheckPointMessage.parse(BytesIO(bytes([t]) + stop[::-1] + _ref_varint(len(hashes)) + b"".join(hashes)))
+    for x in (k, pk):
+        if (x.filter_type, x.stop_hash, list(x.filter_headers)) != (t, stop, list(hashes)):
+            return "CFCheckPointMessage constructed / parsed: fields differ"
+    return None
+
+
 def classify(v):
     """maps a violation to the key of a known finding, or None"""
     if v.get("kind") != "prop":
@@ -1322,7 +1682,9 @@ PROPS = {"varint_rt": p_varint_rt, "varstr_rt": p_varstr_rt, "int_rt": p_int_rt,
          "varint_strict": p_varint_strict, "int_byte": p_int_byte, "node_stream": p_node_stream,
          "cfilter_key": p_cfilter_key, "defaults": p_defaults, "mid_stream": p_mid_stream,
          "count_boundary": p_count_boundary, "headers_txcount": p_headers_txcount, "cfilter_eq": p_cfilter_eq,
-         "handshake": p_handshake}
+         "handshake": p_handshake, "node_session": p_node_session, "node_ctor": p_node_ctor,
+         "node_requests": p_node_requests, "block_parse": p_block_parse, "direct_ctor": p_direct_ctor,
+         "header_hex": p_header_hex}
 
 # ---------------------------------------------------------------- generators
 
@@ -1889,6 +2251,163 @@ def histories(ctx):
 
 
 
+# ---------------------------------------------------------------- audit (round 3 blind spots): generators
+
+def _good_payload(ctx, cmd):
+    """a well-formed payload for this command"""
+    for _ in range(50):
+        pl = _rpayload(ctx, cmd)
+        want = 8 if cmd in (b"ping", b"pong") else 0 if cmd == b"verack" else None
+        if want is not None:
+            if len(pl) == want:
+                return pl
+            continue
+        try:
+            _ref_decode_msg(cmd, pl)
+            return pl
+        except Exception:
+            continue
+    raise AssertionError("no well-formed payload")
+
+
+def _lay_tx(version, ins, outs, locktime):
+    """a legacy transaction: ins [(previous txid, index, raw script, sequence)], outs [(amount, raw script)]"""
+    return struct.pack("<I", version) + _ref_varint(len(ins)) + b"".join(
+        p[::-1] + struct.pack("<I", i) + _ref_varint(len(ss)) + ss + struct.pack("<I", sq) for p, i, ss, sq in ins) + \
+        _ref_varint(len(outs)) + b"".join(struct.pack("<Q", a) + _ref_varint(len(spk)) + spk for a, spk in outs) + \
+        struct.pack("<I", locktime)
+
+
+def _rtx(ctx):
+    r = ctx.rng
+    spks = [b"\x51", b"\x76\xa9\x14" + ctx.rbytes(20) + b"\x88\xac", b"\x00\x14" + ctx.rbytes(20), b"\x6a\x04" + ctx.rbytes(4)]
+    ins = [(ctx.rbytes(32), r.choice([0, 1, 2 ** 32 - 1]), r.choice([b"", b"\x51", b"\x04" + ctx.rbytes(4)]),
+            r.choice([0xffffffff, 0xfffffffe, 0])) for _ in range(r.choice([1, 1, 2]))]
+    outs = [(r.choice([0, 1, 5000, 21 * 10 ** 14]), r.choice(spks)) for _ in range(r.choice([1, 2, 3]))]
+    return _lay_tx(r.choice([1, 2]), ins, outs, r.choice([0, 499999999, 500000000, 0xffffffff]))
+
+
+def audit(ctx):
+    r = ctx.rng
+    cls = list(CLASSES)
+    # --- (f) wait_for with SEVERAL classes: every ordered pair (A, B), the message that arrives is of class B (never the
+    #     first one named), its payload would mostly also parse as A
+    for a in cls:
+        for b in cls:
+            if a == b:
+                continue
+            net = r.randrange(4)
+            pl = _good_payload(ctx, b)
+            pre = [[b"inv", ctx.rbytes(3)]] if r.random() < 0.5 else []
+            rest = ctx.rbytes(r.randrange(0, 3))
+            stream = b"".join(_lay_env((c, x, REF_MAGIC[net])) for c, x in pre + [[b, pl]]) + rest
+            ctx.label("audit/wait_for two classes, the second one arrives")
+            yield ("corr", "node_wait_for", [net, [a, b], stream])
+            yield ("prop", "node_session", [net, [[c, x, 0] for c, x in pre + [[b, pl]]], [[a, b]], rest, 0])
+    yield ("prop", "node_session", [0, [[c, _good_payload(ctx, c), 0] for c in cls[::-1]], [cls], b"", 0])
+    yield ("prop", "node_session", [1, [[c, _good_payload(ctx, c), 0] for c in cls], [cls[::-1]] * len(cls), b"\x00", 0])
+    # --- (g) one node, many calls: a damaged envelope makes one call raise, the retry reads on; answers accumulate
+    for i in range(ctx.n(30, 400)):
+        net = r.randrange(4)
+        envs, calls = [], []
+        for _ in range(r.choice([2, 3, 4, 6])):
+            c = r.choice(cls + [b"version", b"ping", b"inv", b"addr"])
+            pl = _good_payload(ctx, c) if c in CLASSES else ctx.rbytes(8 if c == b"ping" else r.randrange(0, 40))
+            envs.append([c, pl, r.choice([0, 0, 0, 0, 1, 0x80]) if i % 3 else 0])
+        targets = [e[0] for e in envs if e[0] in CLASSES]
+        for _ in range(r.choice([1, 2, 3, 4])):
+            w = [r.choice(targets)] if targets and r.random() < 0.8 else [r.choice(cls)]
+            if r.random() < 0.4:
+                w = [r.choice(cls)] + w
+            calls.append(w)
+        if i % 5 == 0 and targets:                      # the same class asked for again and again
+            calls = [[targets[0]]] * 3
+        ctx.label("audit/one node, several wait_for calls" + (", with a damaged envelope" if any(e[2] for e in envs) else ""))
+        yield ("prop", "node_session", [net, envs, calls, ctx.rbytes(r.randrange(0, 3)), 1 if i % 4 == 3 else 0])
+    # --- (a)/(b) SimpleNode through its constructor: default network / default port per network / explicit port
+    for net in range(4):
+        for how in range(4):
+            ctx.label("audit/SimpleNode constructor (socket replaced)")
+            yield ("prop", "node_ctor", [net, how, r.choice([b"127.0.0.1", b"example.org"]), r.choice([1, 8333, 18444, 65535]),
+                                         r.choice([b"getdata", b"x", b""]), ctx.rbytes(r.choice([0, 5])), ctx.rbytes(8)])
+    # --- (a)/(f) the request helpers: several blocks with DIFFERENT hashes, one or two transactions, partly matched
+    for i in range(ctx.n(8, 80)):
+        nb = [1, 2, 3, 0, 2][i % 5]
+        blocks = []
+        for _ in range(nb):
+            raws = [_rtx(ctx) for _ in range(r.choice([1, 2]))]
+            blocks.append([ctx.rbytes(4), raws, r.randrange(1, len(raws) + 1)])
+        ctx.label("audit/get_filtered_txs + is_tx_accepted")
+        yield ("prop", "node_requests", [r.randrange(4), blocks, i % 2, 1 if i % 5 == 4 else 0, ctx.rbytes(r.randrange(0, 3))])
+    # --- (a)/(c) Block.parse: a transaction count of 0 / 1 / 3 behind the header, then another block
+    for i in range(ctx.n(8, 100)):
+        raws = [_rtx(ctx) for _ in range([0, 1, 3, 2][i % 4])]
+        hdr = [ctx.rbytes(80), b"\x00" * 80, b"\xff" * 80, ctx.rbytes(80)][i % 4]
+        ctx.label("audit/Block.parse (header + whole transactions)")
+        yield ("prop", "block_parse", [hdr, raws, ctx.rbytes(r.randrange(0, 3)), ctx.rbytes(80)])
+    # --- (a) constructors of the parsed-only messages
+    for i in range(ctx.n(10, 100)):
+        hdrs = []
+        for _ in range([0, 1, 2, 3, 4][i % 5]):
+            hdrs.append(_rheader80(ctx, hdrs[-1] if hdrs and r.random() < 0.85 else None))
+        hashes = [ctx.rbytes(32) for _ in range(r.choice([0, 1, 2, 5]))]
+        ctx.label("audit/HeadersMessage, CFHeadersMessage, CFCheckPointMessage through their constructors")
+        yield ("prop", "direct_ctor", [hdrs, r.randrange(256), ctx.rbytes(32), ctx.rbytes(32), hashes])
+    # --- (b)/(c) FALSY arguments where the code tests `is None`: timestamp 0, empty nonce / user agent / addresses,
+    #     relay False, port 0; empty start / end block; zero filter type / height
+    ip, z8 = b"\x01\x02\x03\x04", b"\x00" * 8
+    for f in ([0, 0, 0, 0, b"", 0, 0, b"", 0, b"", b"", 0, 0],
+              [70015, 0, 0, 0, ip, 8333, 0, ip, 8333, b"", DEFAULT_UA, 0, 1],
+              [70015, 1, 0, 1, ip, 0, 1, ip, 0, z8, b"", 0, 0],
+              [0, 0, 1, 0, b"\x00" * 4, 8333, 0, b"\x00" * 4, 8333, z8, b"\x00", 0, 1]):
+        ctx.label("audit/falsy arguments (0, empty bytes, False)")
+        yield ("corr", "version_serialize", f)
+        yield ("prop", "object_session", [[[b"new", 0, 2, f], [b"ser", 0], [b"set", 0, 2, 0], [b"set", 0, 9, b""], [b"ser", 0]]])
+    for v, nh, s, e in ((0, 0, b"", b""), (70015, 1, b"\x00" * 32, b""), (70015, 1, b"", b"\x00" * 32), (0, 0, b"\x00" * 32, b"\x00" * 32),
+                        (70015, 1, ctx.rbytes(32), b"\x00")):
+        ctx.label("audit/falsy arguments (0, empty bytes, False)")
+        yield ("corr", "getheaders_serialize", [v, nh, s, e])
+        yield ("prop", "object_session", [[[b"new", 0, 3, [v, nh, s, e]], [b"ser", 0]]])
+    for t, h, stop in ((0, 0, b""), (0, 0, b"\x00" * 32), (0, 1, b"\xff" * 32), (255, 2 ** 32 - 1, b"\x00")):
+        yield ("corr", "getcfilters_serialize", [t, h, stop])
+        yield ("corr", "getcfcheckpt_serialize", [t, stop])
+    yield ("corr", "getdata_serialize", [[0, 0], [b"", b"\x00" * 32]])
+    for cmd, pl in ((b"", b""), (b"\x00", b"\x00"), (b"\xff" * 12, b"\xff" * 4), (b"\x00" * 12, b"\x00" * 32)):
+        for net in (0, 3):
+            yield ("corr", "env_serialize", [net, cmd, pl])
+            yield ("corr", "env_parse", [net, _lay_env((cmd, pl, REF_MAGIC[net]))])
+            yield ("prop", "codec_session", [[[b"envp", net, net, cmd.strip(b"\x00"), pl, len(pl), 0, b""]]])
+    # --- (d) header bytes / header hex text of one character class: all zero, all ff, decimal digits only, letters only,
+    #     upper case only, mixed case
+    for k, raw in enumerate([b"\x00" * 80, b"\xff" * 80, bytes([0x10 * r.randrange(10) + r.randrange(10) for _ in range(80)]),
+                             bytes([0x10 * r.randrange(10, 16) + r.randrange(10, 16) for _ in range(80)]),
+                             b"\x99" * 80, b"\xaa" * 80, ctx.rbytes(80)]):
+        for text in sorted({raw.hex(), raw.hex().upper(), raw.hex().upper()[:80] + raw.hex()[80:], raw.hex().title()}):
+            ctx.label("audit/header and header-hex of one character class")
+            yield ("corr", "parse_header_hex", [text])
+            yield ("corr", "hex_decode", [text])
+            yield ("prop", "header_hex", [text.encode("ascii")])
+        yield ("corr", "parse_header", [raw])
+        yield ("corr", "hex_encode", [raw])
+        yield ("prop", "header_rt", [raw])
+        yield ("prop", "codec_session", [[[b"hdr", raw], [b"hdr", raw + raw[:3]]]])
+        yield ("prop", "mid_stream", [3, 0, raw[:7], raw, raw[:2]])
+    # --- (c) cfilter: N = 0 with filter bits present, N larger than the bits hold, non-zero padding, all-one bits,
+    #     a block hash of one byte class
+    for bh in (b"\x00" * 32, b"\xff" * 32, ctx.rbytes(32)):
+        two = _ref_gcs([5, 3 * GCS_M])
+        for fb in (b"\x00", b"\x00\xff\xff\xff", b"\x00" + two[1:], b"\x03" + two[1:], two[:-1] + bytes([two[-1] | 1]),
+                   b"\x01" + b"\xff" * 6, b"\x01\x00\x00", b"\x01\x00\x00\x00", b"\xfd\x00\x00", b"\xfd\x02\x00" + two[1:], b""):
+            ctx.label("audit/cfilter count-vs-bits coincidences")
+            yield ("corr", "cfilter_parse", [b"\x00" + bh + _ref_varint(len(fb)) + fb + b"\x07"])
+    # --- (c)/(f) headers / cfheaders whose elements are all EQUAL or differ only in one position
+    h = ctx.rbytes(80)
+    for hs in ([h, h, h], [h, h[:79] + bytes([h[79] ^ 1]), h], [b"\x00" * 80, b"\xff" * 80]):
+        yield ("corr", "headers_parse", [_ref_varint(len(hs)) + b"".join(x + b"\x00" for x in hs)])
+        yield ("prop", "direct_ctor", [hs, 0, b"\x00" * 32, b"\x00" * 32, [x[:32] for x in hs]])
+
+
+
 def generate(ctx):
     r = ctx.rng
     # --- integers
@@ -2062,3 +2581,5 @@ def generate(ctx):
     yield from hardening(ctx)
     # --- histories: objects queried repeatedly and edited in between; module-level codecs in arbitrary order
     yield from histories(ctx)
+    # --- audit of round-3 blind spots: other entry points, falsy arguments, several classes, node reuse
+    yield from audit(ctx)
